@@ -315,21 +315,26 @@ def lifecycle_case(clsname, queued, rng):
     # adding twice: separate call, one call naming a model twice, mixed with a new one
     before = (len(mach.models), states_of())
     again = rng.choice(models)
-    variant = rng.choice(['same', 'list-twice', 'new-and-old'])
+    variant = rng.choice(['same', 'list-twice', 'new-and-old', 'new-and-old'])
     fresh = PlainModel('fresh')
+    own = rng.choice([None, None, 'C'])     # the new model's own initial state, or the machine's
     try:
         if variant == 'same':
             mach.add_model(again)
         elif variant == 'list-twice':
-            mach.add_model([fresh, again, fresh])
+            mach.add_model([fresh, again, fresh], initial=own)
             models.append(fresh)
         else:
-            mach.add_model([again, fresh])
+            mach.add_model([again, fresh], initial=own)
             models.append(fresh)
     except Exception as e:      # noqa
         bad('add-twice-raised', 'C10.add-twice-raises:' + ('graph' if 'Graph' in clsname else 'other'),
             variant=variant, err=repr(e)[:120])
         return out
+    if variant != 'same' and fresh.state != (own or 'A'):
+        # a model added later starts in the machine's or its own initial state — whatever else the call lists
+        bad('late-model-wrong-initial', 'C10.add-later', state=str(fresh.state), expected=own or 'A', variant=variant,
+            listed_first=again.name, its_state=str(again.state))
     expect_n = before[0] + (0 if variant == 'same' else 1)
     if len(mach.models) != expect_n or len(set(map(id, mach.models))) != len(mach.models):
         bad('add-twice-changed-model-list', 'C10.add-twice', variant=variant, n=len(mach.models), expected=expect_n)
